@@ -51,6 +51,8 @@ type Contract struct {
 	Trusted     bool
 	MemWrites   bool
 	Guards      []*Guard
+	Invariants  []*Clause // closures passed to Range: hold before and after every invocation
+	DeadReturns map[int]bool // return sites declared unreachable (defensive code)
 	LoopInv     map[int][]*Clause
 	Ghost       []*GhostStmt
 	File        string
@@ -72,6 +74,7 @@ type SpecFn struct {
 	Body   *E
 	Pkg    string
 	Src    string
+	Opaque bool // applications are uninterpreted atoms, revealed only outside quantifiers
 }
 
 type GhostField struct {
@@ -106,6 +109,11 @@ func (c *Contract) AllTags() []string {
 			m[t] = true
 		}
 	}
+	for _, cl := range c.Invariants {
+		for _, t := range cl.Tags {
+			m[t] = true
+		}
+	}
 	for _, cls := range c.LoopInv {
 		for _, cl := range cls {
 			for _, t := range cl.Tags {
@@ -135,7 +143,7 @@ func (c *Contract) AllTags() []string {
 
 var keywords = map[string]bool{"func": true, "requires": true, "ensures": true, "assigns": true, "nopanic": true,
 	"inline": true, "trusted": true, "loop": true, "at": true, "spec": true, "pred": true, "ghost": true,
-	"lemma": true, "memwrites": true, "tags": true, "let": true, "guarded": true}
+	"lemma": true, "memwrites": true, "tags": true, "let": true, "guarded": true, "invariant": true, "opaque": true, "deadreturn": true}
 
 // Guard: fields of the receiver that may only be accessed while Mutex is held.
 type Guard struct {
@@ -287,6 +295,16 @@ func (cs *contractSet) parseFile(root, file string) error {
 			cur.Trusted = true
 		case "memwrites":
 			cur.MemWrites = true
+		case "deadreturn":
+			// deadreturn N [free text reason]
+			var n int
+			if _, err := fmt.Sscanf(rest, "%d", &n); err != nil {
+				return fmt.Errorf("%s:%d: deadreturn needs an ordinal", file, c.line)
+			}
+			if cur.DeadReturns == nil {
+				cur.DeadReturns = map[int]bool{}
+			}
+			cur.DeadReturns[n] = true
 		case "guarded":
 			// guarded [tags] <mutexField>: f1, f2
 			tags, r2 := parseTags(rest)
@@ -299,12 +317,17 @@ func (cs *contractSet) parseFile(root, file string) error {
 				g.Fields = append(g.Fields, strings.TrimSpace(f))
 			}
 			cur.Guards = append(cur.Guards, g)
-		case "requires", "ensures":
+		case "requires", "ensures", "invariant":
 			cl, err := parseClause(rest, file, c.line)
 			if err != nil {
 				return err
 			}
-			if word == "requires" {
+			if word == "invariant" {
+				if cl.Label == "" {
+					cl.Label = fmt.Sprintf("v%d", len(cur.Invariants))
+				}
+				cur.Invariants = append(cur.Invariants, cl)
+			} else if word == "requires" {
 				if cl.Label == "" {
 					cl.Label = fmt.Sprintf("r%d", len(cur.Requires))
 				}
@@ -426,8 +449,12 @@ func (cs *contractSet) parseFile(root, file string) error {
 			}
 			gs.LHS, gs.RHS = l, r
 			cur.Ghost = append(cur.Ghost, gs)
-		case "spec", "pred":
-			// spec name(a T, b U) R = expr     pred name(a T) = expr
+		case "spec", "pred", "opaque":
+			// spec name(a T, b U) R = expr     pred name(a T) = expr     opaque pred name(a T) = expr
+			isOpaque := word == "opaque"
+			if isOpaque {
+				rest = strings.TrimSpace(strings.TrimPrefix(strings.TrimPrefix(rest, "pred"), "spec"))
+			}
 			i := strings.Index(rest, "(")
 			j := matchParen(rest, i)
 			if i < 0 || j < 0 {
@@ -467,7 +494,7 @@ func (cs *contractSet) parseFile(root, file string) error {
 			if err != nil {
 				return fmt.Errorf("%s:%d: %v", file, c.line, err)
 			}
-			cs.specs[name] = &SpecFn{Name: name, Params: params, Ret: ret, Body: body, Pkg: pkg, Src: rest}
+			cs.specs[name] = &SpecFn{Name: name, Params: params, Ret: ret, Body: body, Pkg: pkg, Src: rest, Opaque: isOpaque}
 		case "ghost":
 			// ghost Type.field type
 			parts := strings.Fields(rest)
